@@ -3,15 +3,16 @@ CONSTANTS
   Configs <- TheConfigs
   ScriptLen = 2
   LongScripts = FALSE
-  Ops = {"buf", "flush", "close", "big"}
+  Ops = {"buf", "nul", "flush", "close", "big"}
   Formats = {"xml"}
   Comps = {"plain", "gzip", "bzip2"}
   Pools = {TRUE}
   Bounds = {1}
   Caps = {2}
-  MaxAt = 9
+  MaxAt = 5
   FaultKinds <- AllKinds
   FdFix = TRUE
+  EmptyFix = TRUE
   GenFormats = {"xml"}
   GenComps = {"plain"}
   GenScriptLen = 2
